@@ -47,6 +47,8 @@ class Caller:
         torch.manual_seed(zlib.crc32(x.detach().contiguous().numpy().tobytes()) ^ (0x5A5A if inverse else 0))
         with torch.no_grad():
             y, ld = fn(x, ctx) if ctx is not None else fn(x)
+        if ld.dim() == 0:
+            ld = ld.expand(x.shape[0])  # (one value per row is C12's / C20's clause; the numeric oracles here look at single rows)
         return y, ld
 
     def fwd(self, X):
